@@ -7,7 +7,7 @@ CONSTANTS
   Ks = {0, 1, 2}
   Fmts = {"bc", "idx_bc"}
   NFiles = {1}
-  Lazy = {FALSE, TRUE}
+  Lazy = {"none", "other", "this"}
   Touches = {"lookup", "getitem"}
   Variant = "design"
 INVARIANT TypeOK
